@@ -171,6 +171,21 @@ def run(ctx):
     ctx.floor("C13.R4", "index reader functions reading a signed count", ncount, 15)
     ctx.ok("C13.R4", "raw read() sites in index readers", "%d (all delegation)" % len(raw))
 
+    ctx.rule("C13.R8", "A5a a read error inside an iterator chain reaches the caller: no reader uses a Result as an iterator "
+                       "(`flat_map(|_| read())`, `result.into_iter()`: Err yields no item, so a cut-off list reads back shorter and Ok)")
+    n8 = 0
+    for d8 in a5.discards(fb):
+        if "used as an iterator" not in d8["how"]:
+            continue
+        n8 += 1
+        f8 = fb.fns[d8["fn"]]
+        ctx.saw_fn(f8)
+        ctx.violation("C13.R8", "C13.R8/result-as-iterator/%s" % f8.root,
+                      "%s feeds a fallible read through %s: when the stream ends inside the list the error yields no item instead of "
+                      "ending the read — a truncated file reads back as a shorter structure and Ok" % (f8.root, d8["callee"].split("::")[-1]), f8.loc(d8["block"]))
+    if not n8:
+        ctx.ok("C13.R8", "no Result-as-iterator site in the workspace", "flat_map / into_iter over a Result: 0 sites (the matcher shares C14.R1's scan of every Result-returning call site)")
+
     ctx.rule("C13.R5", "the only io::Result matches turning an error into success are the tabled EOF conversions")
     from .c14 import ERR_TO_OK_TABLE
     for s in a5.err_to_ok(fb):
